@@ -335,10 +335,16 @@ pub fn bad_entry(k: u64, rng: &mut Rng, w: &World, p: &Profile, v: &View) -> Opt
                 Ev::CopyPaste { src_sheet: s, r0: 12, c0: 8, r1: 12, c1: 8, dst_sheet: s, dr: ar, dc: ac, cut: rng.chance(0.5) },
                 "paste/onto-cse",
             ),
-            None => (
-                Ev::CopyPaste { src_sheet: sh, r0: r, c0: c, r1: r + 2, c1: c + 2, dst_sheet: sh, dr: LAST_ROW, dc: LAST_COL, cut: rng.chance(0.5) },
-                "paste/leaves-grid",
-            ),
+            None => {
+                // (a formula copied a million rows down can come to read most of the sheet,
+                // which the evaluator walks cell by cell: the source is moved off formulas)
+                let has_formula = v.formula_cells.iter().any(|(s, rr, cc)| *s == sh && *rr >= r && *rr <= r + 2 && *cc >= c && *cc <= c + 2);
+                let (r, c) = if has_formula { (r + 40, c + 40) } else { (r, c) };
+                (
+                    Ev::CopyPaste { src_sheet: sh, r0: r, c0: c, r1: r + 2, c1: c + 2, dst_sheet: sh, dr: LAST_ROW, dc: LAST_COL, cut: rng.chance(0.5) },
+                    "paste/leaves-grid",
+                )
+            }
         },
         83 => (
             if rng.chance(0.5) {
